@@ -11,6 +11,7 @@ import (
 
 	discovery "github.com/envoyproxy/go-control-plane/envoy/service/discovery/v3"
 
+	"istio.io/istio/pilot/pkg/model"
 	"istio.io/istio/pkg/xds"
 )
 
@@ -98,4 +99,12 @@ func VerifC04WatchedTypes(con *Connection) []string {
 		out = append(out, k)
 	}
 	return out
+}
+
+// VerifC04TypePredicates evaluates the per-type predicates of the delta push path for a type URL:
+// requiresResourceNamesModification, shouldSetWatchedResources, neverRemoveDelta.
+func VerifC04TypePredicates(typeURL string) (managed, setsWatched, neverRemove bool) {
+	return requiresResourceNamesModification(typeURL),
+		shouldSetWatchedResources(&model.WatchedResource{TypeUrl: typeURL}),
+		neverRemoveDelta(typeURL)
 }
